@@ -100,7 +100,23 @@ func behaviourByName(style, name string) *behaviour {
 			return &l[i]
 		}
 	}
+	for i := range behavioursTimed { // genuine content, delivered according to a timed script (timed.go); either style
+		if behavioursTimed[i].name == name {
+			return &behavioursTimed[i]
+		}
+	}
 	return nil
+}
+
+// hangLike: the authority never completes its reply by itself (the client has to give up on it)
+func hangLike(name string) bool {
+	if name == "hang" {
+		return true
+	}
+	if d := deliveryByName(name); d != nil {
+		return !d.completes()
+	}
+	return false
 }
 
 // ------------------------------------------------------------------ the fake authority
@@ -118,6 +134,12 @@ type tsaCase struct {
 	encdigFree bool
 	timeout    time.Duration // the client's timeout, to notice replies that were slow only because of machine load
 	slow       bool
+	// timed deliveries (timed.go)
+	t0     time.Time   // start of the operation; hit times are relative to it
+	hitAt  []int       // ms since t0, parallel to hits
+	goneAt map[int]int // URL index -> ms since t0 at which the CLIENT gave up on a connection the authority kept open (-1: it never did)
+	deliv  []*delivery // per URL index; nil entries / nil slice: look the behaviour name up in behavioursTimed
+	cap    time.Duration // how long a silent authority keeps its connection open before the harness cleans up
 }
 
 type fakeTSA struct {
@@ -160,25 +182,33 @@ func (f *fakeTSA) handle(w http.ResponseWriter, r *http.Request) {
 	}
 	tc := v.(*tsaCase)
 	body, _ := io.ReadAll(r.Body)
+	t0 := time.Now()
 	tc.mu.Lock()
 	tc.hits = append(tc.hits, idx)
+	if !tc.t0.IsZero() {
+		tc.hitAt = append(tc.hitAt, int(t0.Sub(tc.t0)/time.Millisecond))
+	}
 	name := tc.seq[idx]
+	var dl *delivery
+	if idx < len(tc.deliv) && tc.deliv[idx] != nil {
+		dl = tc.deliv[idx]
+	} else {
+		dl = deliveryByName(name)
+	}
 	tc.mu.Unlock()
 	var code int
 	var out []byte
 	var err error
-	t0 := time.Now()
-	defer func() {
-		if name != "hang" && tc.timeout > 0 && time.Since(t0) > tc.timeout/2 {
-			tc.mu.Lock()
-			tc.slow = true // openssl was starved: the client may have timed out on a reply that is not a hang
-			tc.mu.Unlock()
-		}
-	}()
 	if tc.style == "legacy" {
 		code, out, err = f.legacy(tc, idx, name, body, r)
 	} else {
 		code, out, err = f.rfc3161(tc, idx, name, body, r)
+	}
+	// the time spent producing the reply (openssl) — deliberate delays of a timed delivery come after this point
+	if name != "hang" && tc.timeout > 0 && (time.Since(t0) > tc.timeout/2 || (dl != nil && time.Since(t0) > 350*time.Millisecond)) {
+		tc.mu.Lock()
+		tc.slow = true // openssl was starved: the client may have timed out on a reply that is not a hang
+		tc.mu.Unlock()
 	}
 	if err != nil {
 		tc.mu.Lock()
@@ -195,11 +225,15 @@ func (f *fakeTSA) handle(w http.ResponseWriter, r *http.Request) {
 		}
 		return
 	}
+	ctype := "application/timestamp-reply"
 	if tc.style == "legacy" {
-		w.Header().Set("Content-Type", "application/octet-stream")
-	} else {
-		w.Header().Set("Content-Type", "application/timestamp-reply")
+		ctype = "application/octet-stream"
 	}
+	if dl != nil {
+		f.play(w, tc, idx, dl, code, ctype, out, t0)
+		return
+	}
+	w.Header().Set("Content-Type", ctype)
 	w.WriteHeader(code)
 	w.Write(out)
 }
@@ -397,7 +431,7 @@ func loadTimeout(errText string, seq []string, hits []int) bool {
 	if !strings.Contains(errText, "Client.Timeout") && !strings.Contains(errText, "deadline exceeded") {
 		return false
 	}
-	return len(hits) > 0 && hits[len(hits)-1] < len(seq) && seq[hits[len(hits)-1]] != "hang"
+	return len(hits) > 0 && hits[len(hits)-1] < len(seq) && !hangLike(seq[hits[len(hits)-1]])
 }
 
 // runClientOnce reports whether the run must be repeated because the fake authority itself was too slow
